@@ -49,21 +49,23 @@ CLAIM = dict(
          "Environment.handle_exception and debug.rewrite_traceback_stack read from source); every render-time except handler "
          "re-raises the same object or catches only classes documented as signals at exactly that site "
          "(handlers_within_policy); every handler catching Exception/BaseException/everything at render time re-raises the "
-         "same object, or is one of three allow-listed sites (test_sequence, _filter_test_common, fake_traceback), or one of "
-         "the two known-finding rows F15 (broad_handlers_ok, with counterexample finder broadOffenders); policy rows naming "
+         "same object or is one of three allow-listed sites (test_sequence, _filter_test_common, fake_traceback) "
+         "(broad_handlers_ok at full strength, with counterexample finder broadOffenders); policy rows naming "
          "data hooks sit on handlers that do guard a call into data; in the propagation model, for every construct tree of "
          "render-time guards, every entry point, every fault position k and every exception whose class is outside the "
          "documented signal sets of the guards enclosing event k, the render result is exactly that object "
-         "(exn_transparent, private_exception_transparent); a clean run raises nothing (clean_run_no_raise). Tie: Gen table "
+         "(exn_transparent, private_exception_transparent); a clean run raises nothing (clean_run_no_raise); the module-cache "
+         "state left by a failed render equals the state left by a successful render of the completed part — a module is "
+         "cached only if its body was evaluated to the end (engine_state_after_error_reachable). Tie: Gen table "
          "regenerated each run; fault injection at every event k of generated templates (all statement kinds, ~290 "
          "expression forms, ~60 filters/tests) x 12 exception classes x render/generate/stream/async entry points x "
          "Environment/Sandboxed/Native, identity (`is`) oracle from the Spec evaluated in Lean on the recorded frame stack, "
          "model prediction from the source table compared with the observed outcome, clean re-renders on the same "
          "environment compared with a fresh one.",
     note="Trusted: Lean kernel; translator (body-shape classification); hand-written policy table and render-path list; "
-         "frame-stack capture. Known finding F15: str(argument) of a str-subclass key in Environment.getitem / "
-         "SandboxedEnvironment.getitem swallows every exception (key C38:swallow:getitem-str-argument). "
-         "engine_stateless_after_error is established end to end only (no theorem).",
+         "frame-stack capture. Former finding F15 (str(argument) of a str-subclass key swallowing every exception, key "
+         "C38:swallow:getitem-str-argument) is repaired in /repo 9a4c10c; the str-subclass key stays among the probes. "
+         "The engine-state theorem covers the module cache (`_module`); template/lexer caches are covered end to end only.",
     design_ref="§5 C38",
 )
 
@@ -656,13 +658,6 @@ def run(ctx, res):
         target_words.add(fn)
     intensify = bool(offenders or ctx.proof_broken or ctx.tie_broken)
 
-    # the F15 witness (Findings/F15.lean) — built separately, not an obligation
-    f15_note = None
-    if not ctx.proof_broken:
-        ok, _log = core.lake_build(["JinjaV.Findings.F15"])
-        f15_note = "F15 witness proves (¬ BroadHandlersOkStatement over the current table)" if ok else \
-            "F15 witness no longer proves: the finding does not reproduce in the source table"
-
     n_envs = ctx.pick(14, 160) * (3 if intensify and ctx.quick else 1)
     max_k = ctx.pick(40, 120)
     exc_per_k = ctx.pick(2, 4)
@@ -778,6 +773,7 @@ def run(ctx, res):
 
     # ---- faults during the first evaluation of an imported module (fresh environment per position) -------------------
     import_faults = 0
+    cache_obs = []
     for ii in range(ctx.pick(6, 40)):
         r = ctx.rng("imp", ii)
         is_async = r.random() < 0.35
@@ -813,11 +809,33 @@ def run(ctx, res):
             diffs = []
             cases.append((meta, ob[:2], req_index[key], diffs))
             distinct.add((hook, cls.__name__, inner_site(stack), mode, tuple((m, f) for (m, f, _l, _g) in stack)))
+            # the module cache right after the fault, against the model (Model/ExnFlow.runSt): cached iff the body completed
+            in_module = any(f in ("Template.make_module", "Template.make_module_async", "TemplateModule.__init__")
+                            for (_m, f, _l, _g) in stack)
+            if templates["imp"].startswith(("{% import 'lib'", "{% from 'lib'")):
+                lib_cached = env.get_template("lib")._module is not None
+                if ob[0] in ("same", "other-cause") and in_module:
+                    cache_obs.append((0, lib_cached, meta))
+                elif ob[0] in ("same", "other-cause") and not in_module:
+                    cache_obs.append((1, lib_cached, meta))
+                elif ob[0] == "completed":
+                    cache_obs.append((9, lib_cached, meta))
             for again in ("imp", "other", "imp"):
                 got = observe(env, again, "render", is_async, Plan())[:2]
                 usable_checks += 1
                 if got != ref[again]:
                     diffs.append((again, got, ref[again]))
+
+    # ---- module cache after a fault: model (Props/C38 engine_state_after_error_reachable) vs implementation ----------------
+    cache_model = {k: core.driver_batch([[core.Atom("c38-cache"), k]])[0][1] for k in (0, 1, 9)}
+    for k, lib_cached, meta in cache_obs:
+        want = "lib" in [str(x) for x in cache_model[k][1]]
+        if want != lib_cached:
+            res.violate("C38:engine-state:module-cache",
+                        f"{meta['exc']} injected at event {meta['k']} ({meta['hook']} hook, {'inside' if k == 0 else 'after'} the first "
+                        f"evaluation of the imported module 'lib', via {meta['mode']}): lib._module is "
+                        f"{'set' if lib_cached else 'None'} afterwards; the model caches a module iff its body completed "
+                        f"({'cached' if want else 'not cached'})", meta)
 
     # ---- judge ------------------------------------------------------------------------------------------------------
     replies = core.driver_batch(reqs)
@@ -828,8 +846,8 @@ def run(ctx, res):
         rep = replies[ri]
         if rep[0] != "ok":
             raise core.HarnessError(f"driver reply {rep!r} for {reqs[ri]!r}")
-        spec, spec_known, model, guards = rep[1]
-        spec, spec_known = str(spec), str(spec_known)
+        spec, model, guards = rep[1]
+        spec = str(spec)
         model = "translated" if isinstance(model, list) else str(model)
         verdicts[spec] += 1
         model_hist[model] = model_hist.get(model, 0) + 1
@@ -841,10 +859,10 @@ def run(ctx, res):
             samples.append(dict(template=meta["templates"][meta["main"]][:160], exc=meta["exc"], k=meta["k"], hook=meta["hook"],
                                 site=meta["site"], mode=meta["mode"], expected=spec, model=model, observed=ob[0]))
         if spec == "same" and ob[0] != "same":
-            if spec_known != "same":
-                # documented expectation fails, but exactly at a known-finding row
-                res.violate("C38:swallow:getitem-str-argument", "F15: " + what_ctx + "; documented: the same object is raised",
-                            meta)
+            if meta["hook"] == "str" and meta["site"].endswith(".getitem"):
+                # the key of the former finding F15 (repaired in /repo 9a4c10c): a regression is reported under its own name
+                res.violate("C38:swallow:getitem-str-argument", "F15 regression: " + what_ctx + "; documented: the same object is "
+                            "raised", meta)
             else:
                 res.violate(f"C38:{'swallowed' if ob[0] == 'completed' else 'replaced'}:{meta['site']}:{meta['hook']}",
                             what_ctx + "; documented: render raises that very object", meta)
@@ -890,11 +908,10 @@ def run(ctx, res):
         "expected": verdicts, "observed": obs_hist, "model_prediction": model_hist, "out_of_model": oom,
         "out_of_model_rate": round(oom / max(1, len(cases)), 3),
         "engine_usable_checks": usable_checks, "positions_not_reached_after_module_caching": not_fired,
-        "faults_during_first_import": import_faults,
+        "faults_during_first_import": import_faults, "module_cache_states_compared": len(cache_obs),
         "table": {"handlers": int(n_sites), "render_time": int(n_render), "render_time_not_reraising": len(swallowing),
                   "broad_offenders": len(broad_off), "policy_offenders": len(policy_off), "hook_rows_without_data_call": len(hook_off),
                   "stale_policy_rows": [str(x) for x in stale]},
-        "finding_witness": f15_note,
         "intensified": intensify,
     })
 
